@@ -295,7 +295,7 @@ func (b *Builder) Pair(depth int) (*spec.T, *spec.T) {
 		choices[0].w = 14
 		choices = append(choices,
 			choice{"ptr", 12}, choice{"tptr", 8}, choice{"slice", 12}, choice{"map", 8},
-			choice{"struct", 22}, choice{"ustruct", 6}, choice{"nmap", 4}, choice{"nslice", 4}, choice{"generic", 4})
+			choice{"struct", 22}, choice{"ustruct", 6}, choice{"nmap", 4}, choice{"nslice", 4}, choice{"generic", 4}, choice{"bytes", 4})
 		if b.O.Flags {
 			choices = append(choices, choice{"sptr", 6})
 		}
@@ -422,6 +422,21 @@ func (b *Builder) Pair(depth int) (*spec.T, *spec.T) {
 	case "slice":
 		s, t := b.pairAssign(depth - 1)
 		return spec.Slice(s), spec.Slice(t)
+	case "bytes":
+		// byte slices: the shape "optimised" copies are written for
+		spell := func() *spec.T { return spec.Basic([]string{"byte", "uint8"}[b.draw(2, "byte-spelling")]) }
+		s, t := spec.Slice(spell()), spec.Slice(spell())
+		if !b.noPtrToNamed && b.chance(25, "named-bytes-src") {
+			sd := &spec.TypeDecl{Name: fmt.Sprintf("NB%d", b.id()), U: s}
+			b.A.Types = append(b.A.Types, sd)
+			s = spec.Named(b.A.Key, sd.Name)
+		}
+		if !b.noPtrToNamed && b.chance(25, "named-bytes-dst") {
+			td := &spec.TypeDecl{Name: fmt.Sprintf("MB%d", b.id()), U: t}
+			b.B.Types = append(b.B.Types, td)
+			t = spec.Named(b.B.Key, td.Name)
+		}
+		return s, t
 	case "array":
 		s, t := b.pairAssign(depth - 1)
 		return spec.Array(1+b.draw(3, "alen"), s), spec.Slice(t)
